@@ -137,9 +137,12 @@ func (it *Interp) strConcat(a, b *StrV) *StrV {
 		l := App("len", bvSort(64), t)
 		it.lenAxioms(t, l)
 		it.p.assertAxiom(Eq(l, BVBin("bvadd", it.strLenTerm(ta), it.strLenTerm(tb))))
-		if it.ex.cfg.InjectiveConcat {
-			it.p.noteInjective("concat", t)
+		// concat(a,b)=concat(c,d) and len(a)=len(c) implies a=c and b=d (sound)
+		for _, o := range it.p.inj["concat"] {
+			sameLen := Eq(it.strLenTerm(o.args[0]), it.strLenTerm(ta))
+			it.p.assertAxiom(Implies(And(Eq(o, t), sameLen), And(Eq(o.args[0], ta), Eq(o.args[1], tb))))
 		}
+		it.p.inj["concat"] = append(it.p.inj["concat"], t)
 	}
 	return &StrV{T: t}
 }
